@@ -125,6 +125,7 @@ def random_session(rng):
 # Node v of network k sits at nets[k]["pos"][v]; the layouts keep every distance between two nodes rational (exact stream).
 # ---------------------------------------------------------------------------------------------------
 WORLD_WGT = [0, "1/2", 1, 1, 1, "3/2", 2]
+WORLD_WGT_F = [0.0, 0.5, 1.0, 1.0, 1.0, 1.5, 2.0, 0.3]
 
 
 def world_layout(rng, n):
@@ -151,14 +152,24 @@ def fsqrt(q):
     return Fraction(a, b)
 
 
-def random_world(rng, gate_finding):
+def random_world(rng, gate_finding, floats=False):
     """`gate_finding`: leave out the calls of the (not yet listed) finding's class — a search with a target on an object
-    switched to A* with a positive weight and a consistent heuristic"""
+    switched to A* with a positive weight and a consistent heuristic. `floats`: the float stream — nodes anywhere on a
+    1/16 lattice in space (squares and their sums are exact doubles, the distances are irrational), float weights."""
+    import math
     nn = rng.choice([2, 2, 2, 3])
     nets = []
     for _ in range(nn):
         n = rng.randint(2, 5)
-        nets.append({"n": n, "pos": world_layout(rng, n)})
+        if floats:
+            flat = rng.random() < 0.5
+            pts = [[rng.randint(0, 128) / 16.0, rng.randint(0, 128) / 16.0, 0.0 if flat else rng.randint(0, 64) / 16.0] for _ in range(n)]
+            if rng.random() < 0.3:
+                pts[rng.randrange(n)] = list(pts[rng.randrange(n)])
+            nets.append({"n": n, "pos": pts})
+        else:
+            nets.append({"n": n, "pos": world_layout(rng, n)})
+    fw = lambda: rng.choice([0.0, rng.uniform(0, 10), rng.uniform(0, 10), rng.uniform(0, 0.01), float(rng.randint(0, 5))])
     st = [None] * nn      # per created object: nodes, next edge id, prepared, mode, wgt, edges, weight style
     ops = []
     cut = lambda: rng.choice(SESS_CUTS)
@@ -175,7 +186,7 @@ def random_world(rng, gate_finding):
                 S["mode"] = 1
                 ops.append([created - 1, ["m", 1]])
                 if rng.random() < 0.6:
-                    S["wgt"] = rng.choice(WORLD_WGT)
+                    S["wgt"] = rng.choice(WORLD_WGT_F) if floats else rng.choice(WORLD_WGT)
                     ops.append([created - 1, ["w", S["wgt"]]])
             continue
         k = rng.randrange(created)
@@ -188,12 +199,16 @@ def random_world(rng, gate_finding):
             b = rng.choice(nodes) if nodes and rng.random() < 0.5 else rng.randrange(n)
             if rng.random() < 0.5:
                 a, b = b, a
-            dab = fsqrt(sqdist(net["pos"], a, b))
-            if S["metric"] and dab > 0:
-                w = nc.tok(dab * Fraction(rng.choice([1, 1, 1, "3/2", 2, 3])))      # at least the straight-line distance
-                w = int(w) if "/" not in w else w
+            if floats:
+                dab = math.sqrt(float(sqdist(net["pos"], a, b)))
+                w = dab * rng.choice([1.0, 1.0, 1.5, 2.0, rng.uniform(1, 3), rng.uniform(0.9, 1.1)]) if S["metric"] and dab > 0 else fw()
             else:
-                w = rng.choice(SESS_W)
+                dab = fsqrt(sqdist(net["pos"], a, b))
+                if S["metric"] and dab > 0:
+                    w = nc.tok(dab * Fraction(rng.choice([1, 1, 1, "3/2", 2, 3])))      # at least the straight-line distance
+                    w = int(w) if "/" not in w else w
+                else:
+                    w = rng.choice(SESS_W)
             e = ["e", S["eid"], a, b, w, rng.choice([-1, 0, 0, 0, 1])]
             ops.append([k, e]); S["edges"].append(e[1:])
             S["eid"] += rng.choice([1, 1, 2])
@@ -209,7 +224,7 @@ def random_world(rng, gate_finding):
             S["mode"] = rng.choice([1, 1, 1, 0])
             ops.append([k, ["m", S["mode"]]])
         elif r < 0.37:
-            S["wgt"] = rng.choice(WORLD_WGT)
+            S["wgt"] = (rng.choice(WORLD_WGT_F) if rng.random() < 0.7 else rng.uniform(0, 2)) if floats else rng.choice(WORLD_WGT)
             ops.append([k, ["w", S["wgt"]]])
         elif r < 0.70:
             t = rng.choice(nodes)
@@ -230,7 +245,12 @@ def random_world(rng, gate_finding):
             ops.append([k, [rng.choice(["q", "q", "h"]), rng.choice(nodes), rng.choice(nodes), obj()]])
         else:
             ops.append([k, ["s", rng.choice(nodes), cut(), obj()]])
-    return {"kind": "world", "nets": nets, "ops": ops}
+    if floats:      # cut-offs as floats; a third of them off the integers
+        for _, op in ops:
+            i = {"d": 3, "r": 3, "l": 2, "a": 1, "p": 1, "s": 2}.get(op[0])
+            if i is not None and op[i] != "none":
+                op[i] = float(Fraction(op[i])) if rng.random() < 0.6 else rng.uniform(0, 12)
+    return {"kind": "fworld" if floats else "world", "nets": nets, "ops": ops}
 
 
 def world_valid(case):
@@ -299,8 +319,7 @@ ASTAR_TAG = "[A* selected on this network, consistent heuristic] "
 
 def sqdist(pos, a, b):
     """squared straight-line distance between the nodes a and b (exact)"""
-    (xa, ya), (xb, yb) = pos[a], pos[b]
-    return (Fraction(nc.num(xb)) - Fraction(nc.num(xa))) ** 2 + (Fraction(nc.num(yb)) - Fraction(nc.num(ya))) ** 2
+    return sum((Fraction(nc.num(q)) - Fraction(nc.num(p))) ** 2 for p, q in zip(pos[a], pos[b]))
 
 
 def heuristic_consistent(pos, edges, wgt):
@@ -329,8 +348,9 @@ class SessOracle:
     documented as approximate and only what every A* guarantees is checked: sentinel iff unreachable (no cut-off), and a
     reported value is never below the true minimum."""
 
-    def __init__(self, n, pos=None):
+    def __init__(self, n, pos=None, tol=None):
         self.n = n
+        self.tol = tol         # None: exact stream (tokens compared for equality); else relative tolerance (float stream)
         self.nodes, self.edges, self.ver = [], [], 0
         self.E = {}            # expected content of the caller's dictionary: key -> (token, graph version when written)
         self.D = None          # expected DISTANCES, same form
@@ -342,6 +362,17 @@ class SessOracle:
         if self.fw is None:
             self.fw = nc.floyd_warshall(self.n, self.edges)
         return self.fw
+
+    def eq(self, got, true):
+        """the reported token `got` is the true value `true` (None = none)"""
+        if true is None or got is None or got == "none":
+            return (got == "none" or got is None) and true is None
+        if self.tol is None:
+            return got == nc.tok(true)
+        return abs(Fraction(got) - true) <= self.tol * max(1, abs(true))
+
+    def above(self, got, true):
+        return Fraction(got) > true + (0 if self.tol is None else self.tol * max(1, abs(true)))
 
     def regime(self, t):
         """'exact' (the statement applies), 'approx' (A*, heuristic not consistent); and whether a too-large value
@@ -359,15 +390,16 @@ class SessOracle:
                 return "%s = %s but no permitted walk exists (expected -1)" % (what, got), False
             return None, False
         if regime == "exact":
-            if within(true, c) and got != nc.tok(true):
-                k = known and got != "none" and Fraction(got) > true
+            if within(true, c) and not self.eq(got, true):
+                # the finding's two faces: an inflated value, or (inflated labels exceeding the cut-off) the sentinel
+                k = known and (self.above(got, true) if got != "none" else c is not None)
                 return "%s%s = %s, the minimum over permitted walks is %s" % (ASTAR_TAG if k else "", what, got, nc.tok(true)), k
             return None, False
         # approximate A*: never below the minimum; the sentinel only when a cut-off stopped the search
         if got == "none":
             if c is None:
                 return "%s = -1 but a permitted walk of weight %s exists (A*, no cut-off)" % (what, nc.tok(true)), False
-        elif Fraction(got) < true:
+        elif not self.eq(got, true) and not self.above(got, true):
             return "%s = %s is below the minimum over permitted walks %s (A*)" % (what, got, nc.tok(true)), False
         return None, False
 
@@ -385,20 +417,20 @@ class SessOracle:
                     if g is not None:
                         exp[(s, v)] = (g, self.ver)
                     continue
-                tag = lambda: ASTAR_TAG if known and d[s][v] is not None and Fraction(g) > d[s][v] else ""
+                tag = lambda: ASTAR_TAG if known and d[s][v] is not None and self.above(g, d[s][v]) else ""
                 if w and complete:
-                    if g != nc.tok(d[s][v]):
+                    if not self.eq(g, d[s][v]):
                         return "%s: dictionary[(%d,%d)] = %s, the true distance %s is within the cut-off" % (what, s, v, g, nc.tok(d[s][v])), False
                     exp[(s, v)] = (g, self.ver)
                 elif g is not None and (s, v) not in exp:
                     # written by this call (it was not there before): must be a true distance within the cut-off
-                    if not w or g != nc.tok(d[s][v]):
+                    if not w or not self.eq(g, d[s][v]):
                         return "%s%s: wrote dictionary[(%d,%d)] = %s; true distance %s, cut-off %s" % (
                             tag(), what, s, v, g, "none" if d[s][v] is None else nc.tok(d[s][v]), c), bool(tag())
                     exp[(s, v)] = (g, self.ver)
                 elif g is not None and exp[(s, v)][0] != g:
                     # overwritten by this call
-                    if not w or g != nc.tok(d[s][v]):
+                    if not w or not self.eq(g, d[s][v]):
                         return "%s%s: overwrote dictionary[(%d,%d)] with %s; true distance %s, cut-off %s" % (
                             tag(), what, s, v, g, "none" if d[s][v] is None else nc.tok(d[s][v]), c), bool(tag())
                     exp[(s, v)] = (g, self.ver)
@@ -476,7 +508,7 @@ class SessOracle:
                             self.E = None
                         return m, kn, end
                 if k == "r" and r[2][j] and not (self.mode == 1 and t is not None) and \
-                        labels[j] != (None if d[s][v] is None else nc.tok(d[s][v])):
+                        (d[s][v] is None or not self.eq(labels[j], d[s][v])):
                     return "%s: node %d is marked visited with the label %s, true distance %s" % (what, v, labels[j], d[s][v]), False, end
             if op[-2] and self.E is not None:
                 m, kn = self.check_dict(what, res[pos][1], s, t is None, c, regime, known)
@@ -493,7 +525,9 @@ class SessOracle:
                     self.E = None       # the dictionary was not filled in place (the property does not require it): its content is no longer predictable
             else:
                 want = sorted([s, v, nc.tok(d[s][v])] for s in nodes for v in nodes if within(d[s][v], c))
-                if r[1] != want:
+                same = r[1] == want if self.tol is None else (
+                    [x[:2] for x in r[1]] == [x[:2] for x in want] and all(self.eq(x[2], d[x[0]][x[1]]) for x in r[1]))
+                if not same:
                     extra = [x for x in r[1] if x not in want][:3]
                     missing = [x for x in want if x not in r[1]][:3]
                     return "%s: entries not among the pairs with distance <= cut: %s; missing or wrong: %s" % (what, extra, missing), False, end
@@ -504,7 +538,7 @@ class SessOracle:
             for s in nodes:
                 for v in nodes:
                     if within(d[s][v], c):
-                        self.D[(s, v)] = (nc.tok(d[s][v]), ver)
+                        self.D[(s, v)] = (d[s][v], ver)
         elif k in ("q", "h"):
             key = (op[1], op[2])
             D = self.D
@@ -514,8 +548,8 @@ class SessOracle:
                 if r[1] not in ("none", 0):
                     return "%s = %s but no prepare so far had this pair within its cut-off" % (what, r[1]), False, end
             elif D[key][1] == ver:
-                if (k == "q" and r[1] != D[key][0]) or (k == "h" and r[1] != 1):
-                    return "%s = %s, expected the prepared distance %s" % (what, r[1], D[key][0]), False, end
+                if (k == "q" and not self.eq(r[1], D[key][0])) or (k == "h" and r[1] != 1):
+                    return "%s = %s, expected the prepared distance %s" % (what, r[1], nc.tok(D[key][0])), False, end
         elif k == "s":
             # the returned object is a Network: its own distances must be right (its Node objects are shared with `net`)
             ids, eids, probe = r[1], r[2], r[3]
@@ -524,7 +558,7 @@ class SessOracle:
             for a, row in zip(ids, probe):
                 for b, got in zip(ids, row):
                     want = "none" if ds[a][b] is None else nc.tok(ds[a][b])
-                    if got != want:
+                    if not self.eq(got, ds[a][b]):
                         return "%s: on the returned sub-network shortest_distance(%d,%d) = %s, expected %s" % (what, a, b, got, want), False, end
         return None, False, end
 
@@ -547,7 +581,8 @@ class SessRunner:
         ENUCoords = self.mods[5]
         if self.pos is None:
             return ENUCoords(v, dy, 0)
-        return ENUCoords(nc.pynum(self.pos[v][0]), nc.pynum(self.pos[v][1]) + dy, 0)
+        p = self.pos[v]
+        return ENUCoords(nc.pynum(p[0]), nc.pynum(p[1]) + dy, nc.pynum(p[2]) if len(p) > 2 else 0)
 
     def node(self, v):
         if v not in self.mine:
@@ -682,7 +717,7 @@ class P(Prop):
     trusted = ["CPython's _heapq C accelerator is taken to run the algorithm of Lib/heapq.py (checked position by position on random operation sequences by the hq and pq streams); "
                "Node.__lt__ compares ids, so (poids, Node) tuples are ordered as (priority, id)",
                "math.sqrt on the squared distances of the exact world stream (rational squares: nodes on a line or on the corners of 3k x 4k rectangles) is exact; "
-               "int ** 2 / float ** 2 of the coordinates used is exact"]
+               "int ** 2 / float ** 2 of the coordinates used is exact (float stream: coordinates are multiples of 1/16 below 8, so libm's pow(x, 2.0) has an exactly representable result)"]
     rule = ("every multigraph on <= 3 nodes with <= 2 edges as ordered edge lists (quick) and with 3 edges as multisets in shuffled order (thorough), "
             "weights {0,1,2}, orientations {-1,0,1}, self-loops and parallel edges included, node insertion order shuffled; random graphs to 12 nodes / 40 edges "
             "with integer and dyadic weights. Per graph: every ordered pair, cut-offs below/equal/above each distinct distance (a sample of them for the "
@@ -700,6 +735,8 @@ class P(Prop):
             "statement; A* with a target and a consistent heuristic (0 <= astar_wgt, every weight >= astar_wgt x straight-line length; includes astar_wgt = 0) -> the statement "
             "(failures there with a too-large value are the finding astar-label-accumulates-heuristic; such calls are generated only once that finding is listed in known_findings.json); "
             "A* with a target otherwise (documented as approximate) -> sentinel iff unreachable when there is no cut-off, and never below the minimum. "
+            "Float worlds: the same with nodes anywhere on a 1/16 lattice in the plane or in space (irrational distances, sqrt = IEEE sqrt), float weights (metric x 1..3 or arbitrary, zeros), "
+            "float astar_wgt and cut-offs; model instantiated at Float and compared bit for bit, oracle in exact rationals at 1e-9 relative. "
             "Every case is evaluated on freshly executed definitions of network.py / utils.py "
             "(state kept at module, class or default-argument level cannot leak from one case to the next: a failing case fails in a fresh process). "
             "non-trivial = at least one ordered pair s != t is joined by a walk (graphs) / at least one pop (priority_dict, heapq) / a distance query after an edge was added (sessions)")
@@ -842,6 +879,9 @@ class P(Prop):
         gate = not self.listed(FINDING_ASTAR)
         for _ in range(1500 if tier == "quick" else 25000):
             out.append(random_world(rng, gate))
+        # the same with float coordinates / weights / cut-offs (model instantiated at Float, sqrt = IEEE sqrt)
+        for _ in range(500 if tier == "quick" else 8000):
+            out.append(random_world(rng, gate, floats=True))
         return out
 
     def describe(self, case):
@@ -851,9 +891,9 @@ class P(Prop):
             return {"kind": "hq", "pops": min(10, sum(1 for o in case["ops"] if o[0] == "o")), "heapify": any(o[0] == "h" for o in case["ops"])}
         if case["kind"] == "multi":
             return {"kind": "multi", "networks": len(case["subs"])}
-        if case["kind"] == "world":
+        if case["kind"] in ("world", "fworld"):
             tg = world_regimes(case)
-            return {"kind": "world", "networks": sum(1 for _, o in case["ops"] if o[0] == "c"),
+            return {"kind": case["kind"], "networks": sum(1 for _, o in case["ops"] if o[0] == "c"),
                     "targeted_searches": "+".join(k for k, v in sorted(tg.items()) if v) or "none"}
         if case["kind"] == "sess":
             ks = [o[0] for o in case["ops"]]
@@ -877,7 +917,7 @@ class P(Prop):
             return any(o[0] == "o" for o in case["ops"])
         if case["kind"] == "multi":
             return any(self.nontrivial(sub) for sub in case["subs"])
-        if case["kind"] == "world":
+        if case["kind"] in ("world", "fworld"):
             seen = set()
             for k, o in case["ops"]:
                 if o[0] == "e":
@@ -978,7 +1018,7 @@ class P(Prop):
             return self.impl_pq(case)
         if case["kind"] == "sess":
             return self.impl_sess(case)
-        if case["kind"] == "world":
+        if case["kind"] in ("world", "fworld"):
             return self.impl_world(case)
         if case["kind"] == "rnd-float":
             return self.impl_float(case)
@@ -1051,8 +1091,10 @@ class P(Prop):
             init = ";".join("%s:%d" % (nc.tok(nc.num(p)), k) for p, k in case["init"]) or "_"
             ops = ";".join(o[0] if o[0] != "u" else "u,%s,%d" % (nc.tok(nc.num(o[1])), o[2]) for o in case["ops"]) or "_"
             return ["C06.hq %s %s" % (init, ops)]
-        if case["kind"] == "world":
-            nets = "|".join(";".join([str(nt["n"])] + ["%s,%s,0" % (nc.tok(nc.num(x)), nc.tok(nc.num(y))) for x, y in nt["pos"]])
+        if case["kind"] in ("world", "fworld"):
+            fl = case["kind"] == "fworld"
+            fmt = (lambda x: fbits(float(x))) if fl else (lambda x: nc.tok(nc.num(x)))
+            nets = "|".join(";".join([str(nt["n"])] + [",".join(fmt(c) for c in (list(p) + [0])[:3]) for p in nt["pos"]])
                             for nt in case["nets"]) or "_"
             toks = []
             for k, op in case["ops"]:
@@ -1061,20 +1103,21 @@ class P(Prop):
                 elif op[0] == "m":
                     toks.append("%d:m,%d" % (k, op[1]))
                 elif op[0] == "w":
-                    toks.append("%d:w,%s" % (k, nc.tok(nc.num(op[1]))))
+                    toks.append("%d:w,%s" % (k, fmt(op[1])))
                 else:
-                    sub = self.requests({"kind": "sess", "n": 0, "ops": [op]})[0].split(" ")[2]
+                    sub = self.requests({"kind": "sess", "n": 0, "ops": [op], "fmt": fmt})[0].split(" ")[2]
                     toks += ["%d:%s" % (k, t) for t in sub.split(";")]
-            return ["C06.world %s %s" % (nets, ";".join(toks) or "_")]
+            return ["C06.%s %s %s" % ("fworld" if fl else "world", nets, ";".join(toks) or "_")]
         if case["kind"] == "sess":
-            ct = lambda c: "none" if c == "none" else nc.tok(nc.num(c))
+            fmt = case.get("fmt") or (lambda x: nc.tok(nc.num(x)))
+            ct = lambda c: "none" if c == "none" else fmt(c)
             toks = []
             for op in case["ops"]:
                 k = op[0]
                 if k == "n":
                     toks.append("n,%d" % op[1])
                 elif k == "e":
-                    toks.append("e,%d,%d,%d,%s,%d" % (op[1], op[2], op[3], nc.tok(nc.num(op[4])), op[5]))
+                    toks.append("e,%d,%d,%d,%s,%d" % (op[1], op[2], op[3], fmt(op[4]), op[5]))
                 elif k == "r":
                     toks.append("r,%d,%s,%s,%d" % (op[1], "_" if op[2] is None else op[2], ct(op[3]), op[4]))
                 elif k == "d":
@@ -1141,9 +1184,11 @@ class P(Prop):
             if replies[0] == "bad-request":
                 raise ValueError("bad-request")
             return {"res": [] if replies[0] == "_" else replies[0].split(",")}
-        if case["kind"] in ("sess", "world"):
+        if case["kind"] in ("sess", "world", "fworld"):
             if replies[0] == "bad-request":
                 raise ValueError("bad-request")
+            # float stream: the model's doubles as the exact rationals they denote (what dtok() makes of the implementation's)
+            cv = (lambda t: t if t == "none" else nc.tok(Fraction(bitsf(t)))) if case["kind"] == "fworld" else (lambda t: t)
             lst = lambda t: [] if t in ("_", "") else t.split(",")
             res = []
             for tokn in ([] if replies[0] == "_" else replies[0].split(";")):
@@ -1152,13 +1197,13 @@ class P(Prop):
                 k, body = tokn[0], tokn[2:]
                 if k == "f":
                     d, v = body.split("|")
-                    res.append(["f", lst(d), [int(x) for x in lst(v)]])
+                    res.append(["f", [cv(x) for x in lst(d)], [int(x) for x in lst(v)]])
                 elif k == "v":
-                    res.append(["v", body])
+                    res.append(["v", cv(body)])
                 elif k == "l":
-                    res.append(["l", lst(body)])
+                    res.append(["l", [cv(x) for x in lst(body)]])
                 elif k == "t":
-                    res.append(["t", sorted([int(a), int(b), d] for a, b, d in (x.split(".") for x in lst(body)))])
+                    res.append(["t", sorted([int(a), int(b), cv(d)] for a, b, d in (x.split(".") for x in lst(body)))])
                 elif k == "b":
                     res.append(["b", int(body)])
                 elif k == "s":
@@ -1204,7 +1249,7 @@ class P(Prop):
             m = self.spec_pq(case, impl_out)     # the reference dict agrees with the model; name what differs
             if m:
                 return m
-        if case["kind"] in ("sess", "world") and "res" in impl_out and isinstance(model_out, dict) and "res" in model_out:
+        if case["kind"] in ("sess", "world", "fworld") and "res" in impl_out and isinstance(model_out, dict) and "res" in model_out:
             # the searches on the returned sub-network are not part of the one-object model (checked by spec_sess)
             impl_out = {"res": [r[:3] if isinstance(r, list) and r and r[0] == "s" else r for r in impl_out["res"]]}
         return Prop.compare(self, case, impl_out, model_out)
@@ -1222,7 +1267,7 @@ class P(Prop):
             return None
         if case["kind"] == "sess":
             return self.spec_sess(case, out)
-        if case["kind"] == "world":
+        if case["kind"] in ("world", "fworld"):
             return self.spec_world(case, out)
         if case["kind"] == "multi":
             for i, (sub, o) in enumerate(zip(case["subs"], out["subs"])):
@@ -1329,7 +1374,7 @@ class P(Prop):
             if op[0] == "c":
                 if pos >= len(res) or res[pos] != "ok":
                     return "%s: %s" % (what, res[pos] if pos < len(res) else "no result")
-                orcs[k] = SessOracle(case["nets"][k]["n"], pos=case["nets"][k]["pos"])
+                orcs[k] = SessOracle(case["nets"][k]["n"], pos=case["nets"][k]["pos"], tol=1e-9 if case["kind"] == "fworld" else None)
                 pos += 1
                 continue
             m, known, pos = orcs[k].feed(what, op, res, pos)
@@ -1368,7 +1413,7 @@ class P(Prop):
         for k in reversed(used):              # drop a whole object (renumbering the later ones)
             if len(used) > 1:
                 r = lambda j: j - 1 if j > k else j
-                c = {"kind": "world", "nets": nets[:k] + nets[k + 1:], "ops": [[r(j), o] for j, o in ops if j != k]}
+                c = {"kind": case["kind"], "nets": nets[:k] + nets[k + 1:], "ops": [[r(j), o] for j, o in ops if j != k]}
                 if world_valid(c):
                     yield c
         for i in range(len(ops) - 1, -1, -1):
@@ -1395,7 +1440,7 @@ class P(Prop):
                 for c in self.shrink(sub):
                     yield dict(case, subs=subs[:k] + [c] + subs[k + 1:])
             return
-        if case["kind"] == "world":
+        if case["kind"] in ("world", "fworld"):
             # while the A* finding is not listed its class is not generated — and not drifted into by shrinking either
             gate = not self.listed(FINDING_ASTAR) and world_regimes(case)["astar_consistent"] == 0
             for c in self.shrink_world(case):
@@ -1436,7 +1481,7 @@ class P(Prop):
             yield dict(case, cuts=cut_tokens(case, d))
 
     def mutate(self, case, rng):
-        if case["kind"] in ("pq", "hq", "sess", "multi", "world"):
+        if case["kind"] in ("pq", "hq", "sess", "multi", "world", "fworld"):
             return
         c = nc.explicit(case)
         for k, e in enumerate(c["edges"]):
